@@ -157,7 +157,7 @@ Qed.
 (* the book after one call, against the callbacks compile keeps *)
 Lemma step_kept : forall p r s i,
   rel p r -> r_dom (ref_apply r i s) = true ->
-  let kept := compile_filter (p_cs p ++ [cb_of_step s i]) in
+  let kept := compile_filter (p_cs p ++ [cb_of_step (p_cs p) s i]) in
   let r' := ref_apply r i s in
   (forall n, In n (map cb_name kept) <-> In n (live_names r'))
   /\ (forall c, In c kept -> cb_remove c = false /\ cb_matched c = true)
@@ -246,7 +246,7 @@ Proof.
   pose proof (H (dom_mono _ _ _ Ed)) as R.
   destruct (step_kept p r s i R Ed) as (Kn & Kf & Kd & Ku).
   pose proof (sort_callbacks_rel _ Kf) as S.
-  destruct (sort_callbacks (compile_filter (p_cs p ++ [cb_of_step s i]))) as [cs fns|cs en et|cs en].
+  destruct (sort_callbacks (compile_filter (p_cs p ++ [cb_of_step (p_cs p) s i]))) as [cs fns|cs en et|cs en].
   - destruct S as (Sn & Sf & Sd & Si). split.
     + intros _. constructor; cbn; auto. intro n. rewrite Sn. apply Kn.
     + intros _ f [= <-]. apply once_from_sets; auto. intro n. rewrite Si. apply Kn.
